@@ -118,11 +118,13 @@ type Hooks struct {
 }
 
 type Interp struct {
-	seq        int
-	In         *Interner
-	Ops        Ops
-	Hooks      Hooks
-	EntryBound func(name string, t types.Type) (uint64, bool)
+	// ZeroGlobalPkgs: packages (by path) whose initialiser has been interpreted into the heap image in use
+	ZeroGlobalPkgs map[string]bool
+	seq            int
+	In             *Interner
+	Ops            Ops
+	Hooks          Hooks
+	EntryBound     func(name string, t types.Type) (uint64, bool)
 
 	Events    []Event
 	Stores    []StoreEvent
